@@ -43,6 +43,12 @@ def src_mask(rng, shape, kind):
             m[rng.randrange(h), rng.randrange(w)] = False
     elif kind == 'corner':
         m[:h // 3, :w // 3] = False
+    elif kind == 'empty-side':
+        # only the right third (or the bottom third) holds data: with several blocks, whole blocks (incl. their overlap) are empty
+        if rng.random() < 0.5:
+            m[:, :(2 * w) // 3] = False
+        else:
+            m[:(2 * h) // 3, :] = False
     elif kind == 'sparse-block':
         # most of the image valid, one corner region (a whole block or more) invalid except a handful of pixels
         m[h // 2:, w // 2:] = False
